@@ -1,6 +1,7 @@
 #!/bin/bash
-# debug helper: dump problem/solution/findings of a violation artefact: dump.sh <ID> <path>
-VERIF_DUMP=1 RAYON_NUM_THREADS=1 /verif/target/release/vcheck worker $1 --single $2 2>&1 >/dev/null | grep -E "^PROBLEM|^SOLUTION|^FINDING|^MATRICES" | python3 -c "
+# debug helper: dump problem/solution/findings of a violation artefact: dump.sh <ID> <path>  (same process environment as a worker)
+SEED=$(python3 -c "import json,sys;print(json.load(open('$2'))['scenario'].get('_shard',{}).get('hash_seed',0))")
+VERIF_DUMP=1 RAYON_NUM_THREADS=1 VERIF_HASH_SEED=$SEED LD_PRELOAD=/verif/target/libverifshim.so setarch $(uname -m) -R /verif/target/release/vcheck worker $1 --tier quick --seed 0 --single $2 2>&1 >/dev/null | grep -E "^PROBLEM|^SOLUTION|^FINDING|^MATRICES" | python3 -c "
 import sys,json
 for l in sys.stdin:
     if l.startswith('SOLUTION'):
